@@ -26,7 +26,7 @@ add("C04", "model_checking",
     TB, E12 + " with a head-room probe at every state", "DESIGN.md section 5 C04")
 add("C05", "model_checking",
     "The C01/C09/C12 alphabets on heap-owning drop-ledgered elements and zero-sized elements, executed by an AddressSanitizer build (optimised, assertions off) and by a build with hashbrown's debug assertions on; after every call the cached move cursor is compared with the old table's contents through the hook; canaries on every element touched.",
-    TB + " UB that neither ASan, the canaries, the ledger, the cursor check nor hashbrown's assertions flag is out of reach.", E12 + " under AddressSanitizer and debug assertions, cursor-agreement invariant on every state", "DESIGN.md section 5 C05")
+    TB + " UB that neither ASan, the canaries, the ledger, the cursor check nor hashbrown's assertions flag is out of reach.", E12 + " under AddressSanitizer and debug assertions, cursor-agreement invariant on every state; plus exhaustive enumeration of panicking element destructors (every drop the collection performs in every call over a family of reachable states) and of consumer panics inside fold at every position", "DESIGN.md section 5 C05")
 add("C06", "model_checking",
     "Drop ledger over unique object ids for keys and values: every explored history is closed by dropping the world; a second drop, a stored object that is not live, an object stored twice, or anything (element or table allocation) still live afterwards is a violation; iterators are dropped / forgotten at every consumption prefix.",
     TB, E12 + " with a drop ledger and allocation liveness", "DESIGN.md section 5 C06")
@@ -38,7 +38,7 @@ add("C09", "model_checking",
     TB, E12 + " over states x predicates x early-drop points", "DESIGN.md section 5 C09")
 add("C10", "model_checking",
     "Every reserve/try_reserve argument in [0,2cap+4], every shrink_to argument in [0,cap+2], windows around usize::MAX and isize::MAX, with_capacity for all n<=1100 and 2^k+-1, at every explored state, in the chk and rel binaries; oracle is the statement (capacity lower bounds, no allocation while filling, Err => unchanged, overflow => Err/panic, never a normal return having reserved nothing).",
-    TB + " Requests between 2^40 and the layout limit really ask the OS for memory: exercised with try_reserve only.", E12 + " over capacity arguments incl. integer-limit windows, two build profiles", "DESIGN.md section 5 C10")
+    TB + " Requests between 2^40 and the layout limit really ask the OS for memory: exercised with try_reserve only.", E12 + " over capacity arguments incl. integer-limit windows, two build profiles; allocation failure injected as an environment deviation for try_reserve; scale sweeps with boundary arguments at every resize", "DESIGN.md section 5 C10")
 add("C12", "model_checking",
     "Every type-correct method chain of length <=3 over Entry/OccupiedEntry/VacantEntry/RawEntryMut/RawOccupiedEntryMut/RawVacantEntryMut handles, on every key location class, at every explored state including the insertions that trigger growth; every accessor is compared with the reference element and writes through returned references are read back.",
     TB + " Chains that call replace_entry/replace_key on a handle descending from Entry::insert are not generated (hashbrown documents that panic).", E12 + " over a typed grammar of handle method chains", "DESIGN.md section 5 C12")
